@@ -216,7 +216,11 @@ func vfhC18ToleranceMatching() {
 func vfhC18ClosedLineRotation() {
 	var wkt string
 	ring := false
-	switch vfInt("curve", 0, 3) {
+	switch vfInt("curve", 0, 5) {
+	case 4:
+		wkt, ring = "LINESTRING(0 0,1 0,1 1,0 0,0 0)", true // a ring with a repeated vertex: several rotations line up its start
+	case 5:
+		wkt, ring = "LINESTRING(0 0,0 0,4 0,4 4,4 4,0 4,0 0)", true
 	case 0:
 		wkt, ring = "LINESTRING(0 0,1 1,1 0,0 1,0 0)", false // bow-tie
 	case 1:
@@ -228,10 +232,10 @@ func vfhC18ClosedLineRotation() {
 	}
 	base, err := UnmarshalWKT(wkt)
 	vfAssert(err == nil, "curve parses")
-	rot := vfInt("rot", 0, 3)
+	rot := vfInt("rot", 0, 5)
 	rev := vfBool("reverse")
 	other := vfRewriteRings(base, rot, rev)
-	sameSeq := rot == 0
+	sameSeq := rot%(base.MustAsLineString().Coordinates().Length()-1) == 0
 	want := ring || sameSeq
 	wrap := vfInt("wrap", 0, 2)
 	a, b := base, other
